@@ -1,0 +1,121 @@
+//go:build verif
+
+package corebgp
+
+import (
+	"errors"
+	"time"
+)
+
+// This file is compiled only with -tags verif. It exposes unexported codecs and
+// decision functions to the verification harness without changing them.
+
+// VerifOpen is the exported image of an openMessage.
+type VerifOpen struct {
+	Version  uint8
+	ASN      uint16
+	HoldTime uint16
+	BGPID    uint32
+	Params   [][]Capability
+}
+
+func verifOpenOf(o *openMessage) *VerifOpen {
+	v := &VerifOpen{Version: o.version, ASN: o.asn, HoldTime: o.holdTime, BGPID: o.bgpID}
+	for _, p := range o.optionalParams {
+		if c, ok := p.(*capabilityOptionalParam); ok {
+			v.Params = append(v.Params, c.capabilities)
+		}
+	}
+	return v
+}
+
+func verifOpenTo(v *VerifOpen) *openMessage {
+	o := &openMessage{version: v.Version, asn: v.ASN, holdTime: v.HoldTime, bgpID: v.BGPID}
+	for _, p := range v.Params {
+		o.optionalParams = append(o.optionalParams, &capabilityOptionalParam{capabilities: p})
+	}
+	return o
+}
+
+// VerifNotifOfErr reports the notificationError inside err, if any.
+func VerifNotifOfErr(err error) (n *Notification, out bool, ok bool) {
+	var nerr *notificationError
+	if errors.As(err, &nerr) {
+		return nerr.notification, nerr.out, true
+	}
+	return nil, false, false
+}
+
+func VerifPrependHeader(m []byte, t uint8) []byte { return prependHeader(m, t) }
+
+func VerifNotifEncode(n *Notification) ([]byte, error) { return n.encode() }
+
+func VerifNotifDecode(b []byte) (*Notification, error) {
+	n := &Notification{}
+	err := n.decode(b)
+	return n, err
+}
+
+func VerifKeepAliveEncode() ([]byte, error) { return keepAliveMessage{}.encode() }
+
+func VerifOpenDecode(b []byte) (*VerifOpen, error) {
+	o := &openMessage{}
+	if err := o.decode(b); err != nil {
+		return nil, err
+	}
+	return verifOpenOf(o), nil
+}
+
+func VerifOpenEncode(v *VerifOpen) ([]byte, error) { return verifOpenTo(v).encode() }
+
+// VerifOpenHandle is decode followed by validate and getCapabilities, the
+// sequence the OpenSent state performs on a received OPEN.
+func VerifOpenHandle(localID, localAS, remoteAS uint32, b []byte) (id uint32, hold uint16, caps []Capability, err error) {
+	o := &openMessage{}
+	if err = o.decode(b); err != nil {
+		return
+	}
+	if err = o.validate(localID, localAS, remoteAS); err != nil {
+		return
+	}
+	return o.bgpID, o.holdTime, o.getCapabilities(), nil
+}
+
+// VerifNewOpenEncode is newOpenMessage followed by encode, as
+// sendOpenAndSetHoldTimer does.
+func VerifNewOpenEncode(asn uint32, holdTime time.Duration, bgpID uint32, caps []Capability) ([]byte, error) {
+	o, err := newOpenMessage(asn, holdTime, bgpID, caps)
+	if err != nil {
+		return nil, err
+	}
+	return o.encode()
+}
+
+// VerifMessage is the exported image of a decoded message.
+type VerifMessage struct {
+	Type   uint8
+	Open   *VerifOpen
+	Update []byte
+	Notif  *Notification
+}
+
+func verifMessageOf(m message) *VerifMessage {
+	v := &VerifMessage{Type: m.messageType()}
+	switch m := m.(type) {
+	case *openMessage:
+		v.Open = verifOpenOf(m)
+	case updateMessage:
+		v.Update = []byte(m)
+	case *Notification:
+		v.Notif = m
+	}
+	return v
+}
+
+func VerifMessageFromBytes(b []byte, t uint8) (*VerifMessage, error) {
+	m, err := messageFromBytes(b, t)
+	if err != nil {
+		return nil, err
+	}
+	return verifMessageOf(m), nil
+}
